@@ -53,11 +53,12 @@ PROPS = {
         "quick_runs": 32000, "thorough_runs": 500000, "seed": 2000001,
         "rule": "C02 programs: 1-8 independent waiter/waker pairs over raw agent suspend/resume, condition_variable, semaphore, "
                 "latch, event, thread::join, pika::mutex hand-off, sync_wait from an OS thread, and timed waits (condition_variable::wait_for(pred), "
-                "try_acquire_for: the waiter is registered while it *yields* with the boost hint instead of suspending); latch and semaphore pairs "
+                "try_acquire_for: the waiter is registered while it *yields* with the boost hint instead of suspending), and a raw suspend that is first woken "
+                "with restart reason 'abort' (the waiter survives the exception) and then waits again; latch and semaphore pairs "
                 "have 0-3 co-waiters that one count_down / release(n) must wake together; the waiter publishes 'registered' "
                 "(under the facility's lock where there is one), the waker (task or OS thread) wakes only afterwards; focus "
                 "strategy on do_yield/do_resume/set_thread_state/set_active_state/scheduling_loop.",
-        "required_probes": ["mech0", "mech1", "mech5", "mech6", "timed_cv_wait_woken", "timed_sem_wait_woken", "co_waiters"],
+        "required_probes": ["mech0", "mech1", "mech5", "mech6", "timed_cv_wait_woken", "timed_sem_wait_woken", "co_waiters", "waiter_survived_abort"],
     },
     "C10": {
         "quick_runs": 20000, "thorough_runs": 300000, "seed": 10000001,
